@@ -186,6 +186,18 @@ def check_outbound(run, func, p):
         k = next((i for i in range(min(len(got), len(want))) if got[i] != want[i]), min(len(got), len(want)))
         run.violation("emitted-frame-differs/func%d" % func, dict(wit, at=k, got=got[max(0, k - 4):k + 8], want=want[max(0, k - 4):k + 8]))
         return None
+    # a message object is sent more than once (a BBMD sends one Forwarded-NPDU to every peer and foreign device): every
+    # sending is the same frame
+    del BOTTOM.sent[:]
+    try:
+        CODEC.indication(msg)
+        again = bytes(BOTTOM.sent[0].pduData) if BOTTOM.sent else None
+    except Exception as err:
+        again = "raised " + type(err).__name__
+    run.count("messages_encoded_twice")
+    if again != got:
+        run.violation("second-encoding-of-a-message-differs/func%d" % func, dict(wit, first=got[:24], second=again[:24] if isinstance(again, bytes) else again))
+        return None
     return got
 
 
